@@ -15,6 +15,9 @@ import traceback
 from . import env
 
 env.bootstrap()
+import warnings  # noqa: E402
+
+warnings.filterwarnings("ignore", category=SyntaxWarning)
 
 from . import core  # noqa: E402
 from .core import Ctx  # noqa: E402
